@@ -3,6 +3,7 @@ package absint
 import (
 	"fmt"
 	"go/ast"
+	"go/token"
 	"go/types"
 	"strings"
 )
@@ -76,6 +77,27 @@ func (in *Interp) foreign(fn *types.Func, recv Value, x *ast.CallExpr) []Value {
 		return []Value{&StrVal{}}
 	case "strings.TrimPrefix", "strings.ToLower", "strings.ToUpper":
 		return []Value{&StrVal{}}
+	case "bytes.Equal":
+		args := in.args(x, sig)
+		toS := func(v Value) *Slice {
+			switch s := v.(type) {
+			case *Slice:
+				return s
+			case NilVal:
+				return &Slice{Back: &Backing{}}
+			}
+			in.fail(x, "bytes.Equal on %T", v)
+			return nil
+		}
+		a, b := toS(args[0]), toS(args[1])
+		if a.Len() != b.Len() {
+			return []Value{in.D.Bool(False)}
+		}
+		eq := True
+		for i := 0; i < a.Len(); i++ {
+			eq = in.D.M.And(eq, in.equal(a.At(i).V, b.At(i).V, x))
+		}
+		return []Value{in.D.Bool(eq)}
 	case "crypto/aes.NewCipher":
 		args := in.args(x, sig)
 		key, ok := args[0].(*Slice)
@@ -86,6 +108,18 @@ func (in *Interp) foreign(fn *types.Func, recv Value, x *ast.CallExpr) []Value {
 			return []Value{NilVal{}, &ErrVal{True}}
 		}
 		return []Value{&Opaque{Kind: "aes", Args: in.snapshot(key)}, &ErrVal{False}}
+	case "crypto/cipher.NewCBCDecrypter", "crypto/cipher.NewCBCEncrypter":
+		args := in.args(x, sig)
+		blk, ok := args[0].(*Opaque)
+		iv, ok2 := args[1].(*Slice)
+		if !ok || !ok2 || blk.Kind != "aes" || iv.Len() != 16 {
+			in.fail(x, "CBC mode over %T with iv %T", args[0], args[1])
+		}
+		kind := "cbcdec"
+		if strings.HasSuffix(name, "Encrypter") {
+			kind = "cbcenc"
+		}
+		return []Value{&Opaque{Kind: kind, Args: blk.Args, State: &Cell{&Slice{Back: &Backing{E: cellsOf(in.snapshot(iv))}, Hi: 16, Cap: 16}}}}
 	case "github.com/jacobsa/crypto/cmac.New":
 		args := in.args(x, sig)
 		key, ok := args[0].(*Slice)
@@ -95,7 +129,7 @@ func (in *Interp) foreign(fn *types.Func, recv Value, x *ast.CallExpr) []Value {
 		if key.Len() != 16 && key.Len() != 24 && key.Len() != 32 {
 			return []Value{NilVal{}, &ErrVal{True}}
 		}
-		return []Value{&Opaque{Kind: "cmac", Args: in.snapshot(key)}, &ErrVal{False}}
+		return []Value{&Opaque{Kind: "cmac", Args: in.snapshot(key), State: &Cell{&Slice{Back: &Backing{}}}}, &ErrVal{False}}
 	}
 	if recv != nil {
 		if o, ok := recv.(*Opaque); ok && o.Kind != "extern" {
@@ -104,6 +138,14 @@ func (in *Interp) foreign(fn *types.Func, recv Value, x *ast.CallExpr) []Value {
 	}
 	in.fail(x, "call of %s is not modelled", name)
 	return nil
+}
+
+func cellsOf(vs []Value) []*Cell {
+	out := make([]*Cell, len(vs))
+	for i, v := range vs {
+		out[i] = &Cell{v}
+	}
+	return out
 }
 
 // extractByte returns byte k (little-endian numbering) of an integer value, lazily if needed.
@@ -253,6 +295,39 @@ func (in *Interp) opaqueMethod(o *Opaque, method string, x *ast.CallExpr) []Valu
 			in.store(dst.At(i), out[i])
 		}
 		return nil
+	case "cbcdec.CryptBlocks", "cbcenc.CryptBlocks":
+		dst, ok1 := in.expr(x.Args[0]).(*Slice)
+		src, ok2 := in.expr(x.Args[1]).(*Slice)
+		if !ok1 || !ok2 || src.Len()%16 != 0 || dst.Len() < src.Len() {
+			in.fail(x, "CryptBlocks arguments on a live path")
+		}
+		prev := o.msg()
+		srcv := in.snapshot(src)
+		for k := 0; k*16 < len(srcv); k++ {
+			blk := srcv[k*16 : k*16+16]
+			var outb []Value
+			if o.Kind == "cbcdec" {
+				dec := in.OpaqueBytes("AESdec", [][]Value{o.Args, blk}, 16, "AESdec")
+				for j := 0; j < 16; j++ {
+					outb = append(outb, in.D.Bitwise(token.XOR, dec[j].(*Bits), prev[j].(*Bits)))
+				}
+				prev = blk
+			} else {
+				var xin []Value
+				for j := 0; j < 16; j++ {
+					xin = append(xin, in.D.Bitwise(token.XOR, blk[j].(*Bits), prev[j].(*Bits)))
+				}
+				outb = in.OpaqueBytes("AESenc", [][]Value{o.Args, xin}, 16, "AESenc")
+				prev = outb
+			}
+			for j := 0; j < 16; j++ {
+				in.store(dst.At(k*16+j), outb[j])
+			}
+		}
+		in.store(o.State, &Slice{Back: &Backing{E: cellsOf(prev)}, Hi: 16, Cap: 16})
+		return nil
+	case "cbcdec.BlockSize", "cbcenc.BlockSize":
+		return []Value{in.D.Const(16, 64, true)}
 	case "aes.BlockSize":
 		return []Value{in.D.Const(16, 64, true)}
 	case "cmac.Write":
@@ -260,11 +335,12 @@ func (in *Interp) opaqueMethod(o *Opaque, method string, x *ast.CallExpr) []Valu
 		if !ok {
 			in.fail(x, "hash.Write argument")
 		}
-		// hash state is mutated in place: the Opaque object is shared by reference
-		if len(in.logs) > 0 {
-			in.fail(x, "hash.Write under a symbolic condition")
+		// hash state lives in a cell so that writes under symbolic branches are merged (or split) like any store
+		bk := &Backing{}
+		for _, v := range append(o.msg(), in.snapshot(src)...) {
+			bk.E = append(bk.E, &Cell{v})
 		}
-		o.Msg = append(o.Msg, in.snapshot(src)...)
+		in.store(o.State, &Slice{Back: bk, Hi: len(bk.E), Cap: len(bk.E), Elem: types.Typ[types.Uint8]})
 		return []Value{in.D.Const(int64(src.Len()), 64, true), &ErrVal{False}}
 	case "cmac.Sum":
 		pre := in.expr(x.Args[0])
@@ -272,19 +348,54 @@ func (in *Interp) opaqueMethod(o *Opaque, method string, x *ast.CallExpr) []Valu
 		if s, ok := pre.(*Slice); ok {
 			prefix = in.snapshot(s)
 		}
-		out := in.OpaqueBytes("CMAC", [][]Value{o.Args, o.Msg}, 16, "CMAC")
+		out := in.OpaqueBytes("CMAC", [][]Value{o.Args, o.msg()}, 16, "CMAC")
 		bk := &Backing{}
 		for _, v := range append(prefix, out...) {
 			bk.E = append(bk.E, &Cell{v})
 		}
 		return []Value{&Slice{Back: bk, Hi: len(bk.E), Cap: len(bk.E), Elem: types.Typ[types.Uint8]}}
 	case "cmac.Reset":
-		if len(in.logs) > 0 {
-			in.fail(x, "hash.Reset under a symbolic condition")
-		}
-		o.Msg = nil
+		in.store(o.State, &Slice{Back: &Backing{}})
 		return nil
 	}
 	in.fail(x, "method %s on opaque %s is not modelled", method, o.Kind)
 	return nil
+}
+
+// OpaqueIDsIn returns the ids of the opaque terms whose bytes occur in the support of the given functions.
+func (in *Interp) OpaqueIDsIn(ns []Node) map[int]bool {
+	out := map[int]bool{}
+	for _, n := range ns {
+		for _, v := range in.D.M.Support(n) {
+			name := in.D.M.VarName(v)
+			h := strings.Index(name, "#")
+			if h < 0 {
+				continue
+			}
+			var id, bi, bit int
+			if _, err := fmt.Sscanf(name[h:], "#%d[%d][%d]", &id, &bi, &bit); err == nil {
+				if _, ok := in.OpaqueDesc[id]; ok {
+					out[id] = true
+				}
+			}
+		}
+	}
+	return out
+}
+
+// OpaqueSubst maps every variable of opaque term `from` to the corresponding variable of term `to`.
+func (in *Interp) OpaqueSubst(from, to int, nbytes int) map[int]Node {
+	sub := map[int]Node{}
+	kf, kt := in.OpaqueDesc[from].Kind, in.OpaqueDesc[to].Kind
+	for i := 0; i < nbytes; i++ {
+		sf := in.D.SymInfo(fmt.Sprintf("%s#%d[%d]", kf, from, i))
+		st := in.D.SymInfo(fmt.Sprintf("%s#%d[%d]", kt, to, i))
+		if sf == nil || st == nil {
+			continue
+		}
+		for j := 0; j < 8; j++ {
+			sub[sf.Vars[j]] = in.D.M.VarNode(st.Vars[j])
+		}
+	}
+	return sub
 }
